@@ -181,5 +181,43 @@ def optTable {α : Type} (ids : List (Option String)) (names : List String)
   runs.zipIdx.flatMap (fun e =>
     (ids.zip (names.zip e.1.1)).map (fun x => ⟨x.1, x.2.1, x.2.2, e.1.2, e.2 + 1⟩))
 
+/-! ### one object, several calls; seeds -/
+
+/-- `PosteriorPredictiveModel.sample` called repeatedly on ONE object for a sequence of individuals.
+    The object's state between calls is the formatted parameter matrix it may keep
+    (`cached = false` is the code as it is: the matrix is rebuilt from the dataset on every call;
+    `cached = true` keeps the first call's matrix, the slip of an un-keyed cache). -/
+def readbackSeq (cached : Bool) (ds : Dict) (ids : List String) (modelNames : List String)
+    (paramMap : List (String × String)) :
+    List (Option String) → Option (List Nat) → List (Except IErr (List Nat))
+  | [], _ => []
+  | ind :: rest, cache =>
+    match (if cached then cache else none) with
+    | some cols => .ok cols :: readbackSeq cached ds ids modelNames paramMap rest cache
+    | none =>
+      let r := readback ds ids modelNames paramMap ind
+      let cache' := match r with
+        | .ok cols => if cached then some cols else none
+        | .error _ => cache
+      r :: readbackSeq cached ds ids modelNames paramMap rest cache'
+
+/-- where the draws of `log_prior.sample` come from -/
+inductive PriorStream where
+  | seeded (s : Nat)      -- numpy's global generator right after `np.random.seed(s)`
+  | ambient (g : Nat)     -- the global generator in whatever state `g` earlier code left it
+  deriving Repr, DecidableEq
+
+/-- `np.random.seed(seed)` at the top of every `sample_initial_parameters`.
+    `truthyGuard = false` is the code as it is (unconditional; `seed=None` reseeds from entropy,
+    i.e. no reproducibility is promised); `truthyGuard = true` is the slip `if seed:` -/
+def priorStream (truthyGuard : Bool) (seed : Option Nat) (g : Nat) : PriorStream :=
+  match seed with
+  | none => .ambient g
+  | some s => if truthyGuard && s == 0 then .ambient g else .seeded s
+
+/-- `rng = np.random.default_rng(seed + 1)` for the population model and the noise realisations -/
+def populationStream (seed : Option Nat) : Option Nat := seed.map (· + 1)
+
+
 end Inference
 end ChiModel
